@@ -216,6 +216,20 @@ def r1b(ctx: Ctx) -> RuleReport:
     sets = [n for n in walk_local(fi.node) if isinstance(n, (ast.AugAssign, ast.Assign)) and 'has_concept' in assigned_names(n)]
     good = any(isinstance(n, ast.AugAssign) and isinstance(n.op, ast.BitOr) and 'CONCEPT_ROLE' in norm(n.value) for n in sets) or \
         any(isinstance(n, ast.Assign) and try_fold(n.value) == (True, True) for n in sets)
+    if not good:
+        from ..resolve import expand
+        loops = [n for n in walk_local(fi.node) if isinstance(n, ast.For)]
+        in_loop = [n for n in sets if any(any(x is n for x in ast.walk(lp)) for lp in loops)]
+        fixed = []
+        for n in sets:
+            v = expand(ctx, fi, n.value, n)
+            fixed += [x for x in ast.walk(v) if isinstance(x, ast.Subscript) and isinstance(x.slice, ast.Constant) and isinstance(x.slice.value, int)
+                      and isinstance(x.value, ast.Name)]
+        if not in_loop and fixed:
+            rep.violation('penman.layout:_interpret_node: has_concept accumulates over the branches', fi.loc(sets[0]),
+                          f'has_concept is computed once from `{norm(fixed[0])}` and never updated in the branch loop: an instance branch written in a later '
+                          f'position (":instance" is an ordinary role in the notation) is not seen, so the node gets a second, null-concept instance triple')
+            return rep
     rep.add('penman.layout:_interpret_node: has_concept accumulates over the branches', fi.loc(), 'ok' if good else 'undecided')
     return rep
 
@@ -400,6 +414,40 @@ def r36(ctx: Ctx) -> RuleReport:
                           'nodes pops the context stack only once, so every later triple is attributed to a node that is already closed')
         else:
             rep.undecided(key, nc.loc(sp), 'stack.pop() is not inside a loop over all markers of the triple under isinstance(marker, Pop)')
+    # get_pushed_variable looks at every marker of the triple
+    gp_ = repo.func(L, 'get_pushed_variable')
+    tests = [n for n in walk_local(gp_.node) if isinstance(n, ast.Call) and isinstance(n.func, ast.Name) and n.func.id == 'isinstance'
+             and len(n.args) == 2 and norm(n.args[1]) == 'Push']
+    key = 'penman.layout:get_pushed_variable: every marker of the triple is inspected for a Push'
+    if not tests:
+        rep.undecided(key, gp_.loc(), 'no isinstance(<marker>, Push) test')
+    for t in tests:
+        a = t.args[0]
+        if isinstance(a, ast.Subscript) and isinstance(a.slice, ast.Constant) and isinstance(a.slice.value, int):
+            rep.violation(key, gp_.loc(t), f'only `{norm(a)}` is tested: interpretation records the alignment of the role before the Push marker, so an '
+                          f'aligned role that opens a nested node (":ARG0~e.1 (b / beta)") is reported as pushing nothing and every later node context is lost')
+        elif isinstance(a, ast.Name):
+            scans = any((isinstance(n, ast.For) and norm(n.target) == a.id and '.epidata' in norm(n.iter)) or
+                        (isinstance(n, ast.comprehension) and norm(n.target) == a.id and '.epidata' in norm(n.iter))
+                        for n in ast.walk(gp_.node))
+            rep.add(key, gp_.loc(t), 'ok' if scans else 'undecided', norm(t))
+        else:
+            rep.undecided(key, gp_.loc(t), norm(t))
+    # _configure_node: the expected orientation has priority over the unexpected inversion
+    from ..resolve import facts_ex
+    cvar = cn.positional[0]
+    for c, ts in ctx.cg.calls_in(cn):
+        if any(tt.kind == 'func' and tt.func.qualname == 'Model.invert' for tt in ts):
+            fx = facts_ex(ctx, cn, c)
+            arg = norm(c.args[0]) if c.args else 'triple'
+            src_names = {f'{arg}[0]'} | {norm(n.targets[0].elts[0]) for n in walk_local(cn.node) if isinstance(n, ast.Assign)
+                                         and isinstance(n.targets[0], ast.Tuple) and len(n.targets[0].elts) == 3 and norm(n.value) == arg}
+            differs = any(((f in (f'{s0} == {cvar}', f'{cvar} == {s0}') and not pol) or (f in (f'{s0} != {cvar}', f'{cvar} != {s0}') and pol))
+                          for f, pol in fx for s0 in src_names)
+            key = 'penman.layout:_configure_node: a triple is re-inverted only if its source is not the current node'
+            rep.add(key, cn.loc(c), 'ok' if differs else 'violation',
+                    '' if differs else f'`{norm(c)}` can run although the source of the triple is the current node (facts here: {sorted(fx)}): a self-loop '
+                                       f'such as (a :ARG0 a) is written back as (a :ARG0-of a)')
     spush = [n for n in walk_local(nc.node) if _recv_call(n, 'append') == 'stack']
     good = len(spush) == 1 and isinstance(spush[0].args[0], ast.Name) and \
         (spush[0].args[0].id, True) in facts_at(cfg4, IN4, pm4, spush[0])
